@@ -1,6 +1,6 @@
 (* Properties/C03.v — Every eligible target ends up scraped by exactly one shard. *)
 From KV Require Import Base.Util Base.AMap Base.Sched Gen.Consts Model.Coordinator Model.CoordCheck Model.Sidecar Model.World
-                       Proofs.CoordBasics Proofs.CoordC01 Proofs.WorldProofs Proofs.CoordStable Proofs.WorldNoGap Proofs.CoordHandover.
+                       Proofs.CoordBasics Proofs.CoordC01 Proofs.SidecarProofs Proofs.WorldProofs Proofs.CoordStable Proofs.WorldNoGap Proofs.CoordHandover.
 Local Open Scope list_scope.
 Local Open Scope Z_scope.
 
@@ -114,6 +114,14 @@ Theorem C03_one_normal_copy_after_cleaning : forall o i s h,
     forall j, j <> w -> insync i j = true -> afind h (scr_of (nth_si p1 j)) = None.
 Proof. exact single_normal_after_gc_and_recovery. Qed.
 Print Assumptions C03_one_normal_copy_after_cleaning.
+
+(* ... and a round of scrapes is what makes every copy eligible for that step: n scrapes of everything a sidecar is
+   assigned add n to every counter (failed scrapes count as well) and change no state *)
+Theorem C03_scrape_round_counts : forall tru n s h e, wf (ws_sc s) -> afind h (sc_status (ws_sc s)) = Some e ->
+  exists e', afind h (sc_status (ws_sc (scrape_shard tru n s))) = Some e' /\
+             ss_times e' = (ss_times e + N.of_nat n)%N /\ ss_state e' = ss_state e.
+Proof. exact scrape_round_counts. Qed.
+Print Assumptions C03_scrape_round_counts.
 
 (* ---- "further cycles then change nothing" ----
    settled: every shard in sync; every reported copy is of a discovered target, in normal state, and no target is on
